@@ -377,6 +377,15 @@ class Impl:
             d = d.upper()
         return d, algo
 
+    def gcall(self, c, timeout=15.0):
+        """call(c) under a watchdog: 'exn:HANG' when it does not return (the thread is abandoned)"""
+        import threading
+        box = []
+        t = threading.Thread(target=lambda: box.append(self.call(c)), daemon=True)
+        t.start()
+        t.join(timeout)
+        return box[0] if box else "exn:HANG"
+
     def call(self, c):
         """c: dict {'op':..., tokens..., 'real': {...}} -> result string in the model's syntax."""
         u, hs = self.u, self.hs
